@@ -80,15 +80,30 @@ pub struct Director {
 
 pub fn build_pool(w: &W) -> Result<MPool, String> {
     let cfg = lock(w).cfg.clone();
-    let mut b = Pool::<ScriptedManager, Wrapped>::builder(ScriptedManager { w: w.clone() })
-        .max_size(cfg.max_size)
-        .queue_mode(match cfg.mode {
-            Mode::Fifo => QueueMode::Fifo,
-            Mode::Lifo => QueueMode::Lifo,
-        })
-        .wait_timeout(cfg.wait)
-        .create_timeout(cfg.create)
-        .recycle_timeout(cfg.recycle);
+    // The same configuration reaches the builder in one of several ways: single setters in different orders
+    // (some called twice, the first time with a value that must not survive), `timeouts()`, or a whole
+    // `PoolConfig` through `config()`. Which way is a function of the configuration itself (replays agree).
+    let qm = match cfg.mode {
+        Mode::Fifo => QueueMode::Fifo,
+        Mode::Lifo => QueueMode::Lifo,
+    };
+    let way = vh_common::fnv1a(cfg.describe().as_bytes()) % 7;
+    let decoy = Some(std::time::Duration::from_secs(12345));
+    let ts = Timeouts { wait: cfg.wait, create: cfg.create, recycle: cfg.recycle };
+    let b0 = Pool::<ScriptedManager, Wrapped>::builder(ScriptedManager { w: w.clone() });
+    let mut b = match way {
+        0 => b0.max_size(cfg.max_size).queue_mode(qm).wait_timeout(cfg.wait).create_timeout(cfg.create).recycle_timeout(cfg.recycle),
+        1 => b0.recycle_timeout(cfg.recycle).create_timeout(cfg.create).wait_timeout(cfg.wait).queue_mode(qm).max_size(cfg.max_size),
+        2 => b0.queue_mode(qm).create_timeout(cfg.create).max_size(cfg.max_size).recycle_timeout(cfg.recycle).wait_timeout(cfg.wait),
+        3 => b0.wait_timeout(decoy).create_timeout(decoy).recycle_timeout(decoy).max_size(cfg.max_size + 3).max_size(cfg.max_size).queue_mode(qm).timeouts(ts),
+        4 => b0.config(deadpool::managed::PoolConfig { max_size: cfg.max_size, timeouts: ts, queue_mode: qm }),
+        5 => b0.config(deadpool::managed::PoolConfig { max_size: cfg.max_size + 1, timeouts: Timeouts { wait: decoy, create: decoy, recycle: decoy }, queue_mode: qm })
+            .recycle_timeout(cfg.recycle)
+            .wait_timeout(cfg.wait)
+            .create_timeout(cfg.create)
+            .max_size(cfg.max_size),
+        _ => b0.timeouts(ts).queue_mode(qm).max_size(cfg.max_size).wait_timeout(cfg.wait),
+    };
     if cfg.runtime {
         b = b.runtime(Runtime::Tokio1);
     }
